@@ -7,6 +7,12 @@ from drivers import metrics_common as mc
 
 def run(rep, tier, seed):
     cases = mc.gen(rep, ["MC_metrics_rpe.cfg", "MC_metrics_rpe4light.cfg"] if tier == "quick" else ["MC_metrics_rpe_thorough.cfg"])
+    # sequences of different length must be refused (either one longer), for every relation / unit
+    extra = []
+    for k, c in enumerate(cases):
+        if k % 9 == 0 and len(c["ref"]) >= 2 and len(c["est"]) >= 2:
+            extra.append(dict(c, est=c["est"][:-1]) if (k // 9) % 2 else dict(c, ref=c["ref"][:-1]))
+    cases = cases + extra
     import evo.core.metrics  # noqa: F401
     obs = core.pmap(metricsexec.exec_rpe, [(n, c, seed) for n, c in enumerate(cases)], chunksize=200)
     nref = 0
